@@ -187,30 +187,6 @@ def crash_label(sub: Dict[str, Any]) -> str:
     return "[crash:" + labelled.split("[", 1)[1] if "[" in labelled else ""
 
 
-def hybrid_part_over_origin(case: Dict[str, Any]) -> bool:
-    """ protoclusters that share an anchoring gene (they form one chemical-hybrid candidate), at least two
-        of them with a core that crosses the origin and at least one with a core that does not:
-        formation.py:_find_cross_origin_interleaved then collects only the origin-crossing members of the
-        hybrid, finds that this proper subset equals no existing candidate and adds it as an extra
-        INTERLEAVED candidate """
-    if not case["circ"]:
-        return False
-    geo = chk.Geometry(case)
-    length = case["L"]
-    members = []
-    for rule in case["rules"]:
-        anchors = chk.expected_anchors(case, rule, geo)
-        for group in chk.chains(anchors, rule["cut"], geo):
-            crosses = any(start + size > length for start, size in geo.spans(group))
-            members.append((set(group), crosses))
-    comps = model.components(list(range(len(members))), lambda i, j: bool(members[i][0] & members[j][0]))
-    for comp in comps:
-        crossing = sum(1 for i in comp if members[i][1])
-        if crossing >= 2 and crossing < len(comp):
-            return True
-    return False
-
-
 def compare_rotation(base: Dict[str, Any], base_obs: model.Observed, cut: int
                      ) -> List[Tuple[str, bool, str]]:
     """ the clauses of the rotation half of C07 for one rotation of one base record """
@@ -227,8 +203,6 @@ def compare_rotation(base: Dict[str, Any], base_obs: model.Observed, cut: int
     first, second = signature(base, base_obs), signature(turned, obs)
     for key, clause in ROT_CLAUSES.items():
         same = first[key] == second[key]
-        if key == "candidates" and not suffix and (hybrid_part_over_origin(base) or hybrid_part_over_origin(turned)):
-            clause += "[hybrid-part-over-origin]"
         out.append((clause + suffix, same,
                     "" if same else f"origin moved to base {cut}: {key} {first[key]} became {second[key]}"))
     return out
@@ -419,7 +393,7 @@ ROOTS = {
     "C07-F6": "gene-at-0-with-origin-spanning-gene",
     "C07-F7": "superior-overlaps-over-origin",
     "C07-F8": "merged-cores-with-extenders",
-    "C07-F9": "superior-chain-over-origin",
+    # C07-F9 (face of C03-F10) was repaired in /repo
 }
 
 
@@ -436,17 +410,6 @@ def _classifier(suffix: str) -> Any:
         second = dict(base, rules=[by_name[n] for n in where.get("second", [])])
         return bool(base["circ"]) and pair_label(first, second, ORDER_DEPENDENT) == f"[{suffix}]"
     return predicate
-
-
-def _hybrid_classifier(clause: str, case: Any) -> bool:
-    """ C07-F13 """
-    if clause != "rotation-same-candidate-clusters[hybrid-part-over-origin]" or not isinstance(case, dict):
-        return False
-    if case.get("kind") != "rotation":
-        return False
-    base = case["base"]
-    turned = chk.rotate_case(base, case["cut"])
-    return not pair_label(base, turned) and (hybrid_part_over_origin(base) or hybrid_part_over_origin(turned))
 
 
 def _crash_classifier(clause: str, case: Any) -> bool:
@@ -466,5 +429,5 @@ def _crash_classifier(clause: str, case: Any) -> bool:
 
 FINDING_CLASSES: Dict[str, Any] = {fid: _classifier(suffix) for fid, suffix in ROOTS.items()}
 FINDING_CLASSES["C07-F10"] = _crash_classifier
-FINDING_CLASSES["C07-F13"] = _hybrid_classifier
+# C07-F13 (extra interleaved candidate) was repaired in /repo as well: no input class any more
 # C07-F11 (candidate look-up key) was repaired in /repo: no input class any more, the witness is a regression test
